@@ -611,20 +611,30 @@ def write_ghw(path, items, rounds=None, snapshot=None, share_strings=True, big_e
         nonlocal next_id, nscopes, hie
         for it in its:
             if isinstance(it, Scope) and it.extra.get("composite"):
-                # one signal of a composite type: an array (its elements in declaration order) or a record (its fields)
-                comp = it.extra["composite"]
-                if comp[0] == "array":
-                    t = tt.vector(ghw_type_of(tt, it.children[0]), comp[3], comp[1], comp[2], name=comp[4])
-                else:
-                    t = tt.record(comp[1], [(e.name, ghw_type_of(tt, e)) for e in it.children])
-                ndecl[0] += 1
-                hie += bytes([GHW_DIR.get(it.extra.get("dir", "signal"), 16)]) + varint(tt.sid(it.name)) + varint(t)
-                for e in it.children:
-                    i = next(k for k, x in enumerate(vs) if x is e)
+                # one signal of a composite type: an array (its elements in declaration order) or a record (its fields);
+                # elements and fields may be composite themselves
+                def comp_type(x):
+                    if not isinstance(x, Scope):
+                        return ghw_type_of(tt, x)
+                    comp = x.extra["composite"]
+                    if comp[0] == "array":
+                        return tt.vector(comp_type(x.children[0]), comp[3], comp[1], comp[2], name=comp[4])
+                    return tt.record(comp[1], [(e.name, comp_type(e)) for e in x.children])
+
+                def assign(x):
+                    nonlocal next_id, hie
+                    if isinstance(x, Scope):
+                        for e in x.children:
+                            assign(e)
+                        return
+                    i = next(k for k, y in enumerate(vs) if y is x)
                     first_id[i] = next_id
-                    for _ in range(e.width if e.kind in ("logic", "bit") else 1):
+                    for _ in range(x.width if x.kind in ("logic", "bit") else 1):
                         hie += varint(next_id)
                         next_id += 1
+                ndecl[0] += 1
+                hie += bytes([GHW_DIR.get(it.extra.get("dir", "signal"), 16)]) + varint(tt.sid(it.name)) + varint(comp_type(it))
+                assign(it)
                 continue
             if isinstance(it, Scope) and it.kind == "process":
                 # a process is a leaf of the hierarchy (no end marker); the loader leaves processes out
@@ -642,6 +652,12 @@ def write_ghw(path, items, rounds=None, snapshot=None, share_strings=True, big_e
                 i = next(k for k, x in enumerate(vs) if x is it)
                 ndecl[0] += 1
                 hie += bytes([GHW_DIR.get(it.extra.get("dir", "signal"), 16)]) + varint(tt.sid(it.name)) + varint(ghw_type_of(tt, it))
+                if "slice_of" in it.extra:
+                    # a variable made of signals that an earlier vector already consists of (elements a..b from the left)
+                    par, a, b = it.extra["slice_of"]
+                    for j in range(a, b + 1):
+                        hie += varint(first_id[par] + j)
+                    continue
                 first_id[i] = next_id
                 cnt = it.width if it.kind in ("logic", "bit") else 1
                 for _ in range(cnt):
@@ -665,9 +681,11 @@ def write_ghw(path, items, rounds=None, snapshot=None, share_strings=True, big_e
     t0, chs0 = snapshot if snapshot is not None else evs[0]
     for i, val in chs0:
         current[i] = val
-    assert len(current) == len(vs), "every variable needs an initial value"
+    assert len(current) == sum(1 for v in vs if "slice_of" not in v.extra), "every variable needs an initial value"
     out += b"SNP\0" + bytes(4) + struct.pack(E + "q", t0)
     for i, v in enumerate(vs):
+        if "slice_of" in v.extra:
+            continue
         for b in range(nbits(v)):
             out += ghw_scalar(v, current[i], b)
     out += b"ESN\0"
@@ -732,9 +750,19 @@ def expected_wfull(items, fmt, ts="1e-15", time_table=None):
     parts = ["ts=%s" % ts, "tt=" + (",".join("%x" % t for t in tt) if tt else "-")]
     handles = {}
     n = 0
+    slices = {}
     for i, v in enumerate(vs):
         a = v.extra.get("alias_of")
-        if a is None:
+        if "slice_of" in v.extra:
+            par, lo, hi = v.extra["slice_of"]
+            if lo == 0 and hi == vs[par].width - 1:
+                handles[i] = handles[par]             # the same signals: the same signal
+            elif (par, lo, hi) in slices:
+                handles[i] = slices[(par, lo, hi)]    # the same sub-range as an earlier variable
+            else:
+                handles[i] = slices[(par, lo, hi)] = n
+                n += 1
+        elif a is None:
             handles[i] = n
             n += 1
         else:
@@ -757,7 +785,11 @@ def expected_wfull(items, fmt, ts="1e-15", time_table=None):
                 continue
             i = next(k for k, x in enumerate(vs) if x is it)
             src = it if it.extra.get("alias_of") is None else vs[it.extra["alias_of"]]
-            ch = dedup(it, src.changes)
+            if "slice_of" in it.extra:
+                par, lo, hi = it.extra["slice_of"]
+                ch = dedup(it, [(t, val[lo:hi + 1]) for t, val in vs[par].changes])
+            else:
+                ch = dedup(it, src.changes)
             chs = ",".join("%x:%s:%s" % (t, k, x) for t, (k, x) in ch) if ch else "-"
             idx = "~" if it.rng is None else "%d.%d" % it.rng
             if fmt == "fst":
